@@ -31,3 +31,16 @@ for _f in sorted(os.listdir(_d)):
         CHECKS[_f[:-3]] = _m.CHECK
         if hasattr(_m, 'LEVEL'):
             LEVEL_TEXT[_f[:-3]] = _m.LEVEL
+
+
+# Thread-compatibility supplement: several threads, each with PRIVATE objects of the property's
+# container family, under ThreadSanitizer (harness/mt_private.c).  Hidden shared state in the library
+# (static scratch nodes, cached pointers) breaks "operations on independent objects are independent".
+_MTP = {'C01': 'trees', 'C02': 'trees', 'C03': 'hash', 'C07': 'heap', 'C08': 'map', 'C09': 'vector',
+        'C10': 'string', 'C12': 'dlist', 'C13': 'slist', 'C14': 'array'}
+for _pid, _fam in _MTP.items():
+    if _pid in CHECKS:
+        CHECKS[_pid]['runs'] = list(CHECKS[_pid]['runs']) + [
+            {'harness': 'mt_private', 'mode': _fam, 'sources': ['harness/mt_private.c'], 'configs': both(['tsan']), 'workers': 4}]
+        CHECKS[_pid]['assumptions'] = list(CHECKS[_pid].get('assumptions', [])) + [
+            'supplement: 4 threads with private ' + _fam + ' objects under ThreadSanitizer (independent objects must not share hidden state)']
